@@ -339,12 +339,17 @@ func C15(c *core.Ctx) {
 		independentIterations(c, "R2", []*ssa.Function{p.SSAFn(p.Method(pkgPerio, "Server", "Serve")), p.SSAFn(p.Method(pkgFwd, "Gtp5g", "queryMultiURR"))})
 	}
 
+	// registrations and removals reach the server (a dropped ADD is a URR never queried, a dropped DEL one queried for ever)
+	evtCh := p.Field(pkgPerio, "Server", "evtCh")
+	losslessPost(c, "R2", p.SSAFn(p.Method(pkgPerio, "Server", "AddPeriodReportTimer")), evtCh, "registration with the periodic server")
+	losslessPost(c, "R2", p.SSAFn(p.Method(pkgPerio, "Server", "DelPeriodReportTimer")), evtCh, "unregistration from the periodic server")
+
 	// R3 batching
 	c15Batching(c)
 
 	// R4
 	sub, _ := core.NewCtx(c.P, "C03", c.Tier, c.Seed, c.OutDir, "")
-	c03Periodic(sub)
+	c03Periodic(sub, "R8", false)
 	okR4 := true
 	for _, f := range sub.Findings {
 		if strings.Contains(f.Key, "del-on-remove") || strings.Contains(f.Key, "del-caller") {
@@ -352,6 +357,14 @@ func C15(c *core.Ctx) {
 		}
 	}
 	c.Check("R4", "removal-unregisters", token.NoPos, okR4, "the driver's Remove URR always unregisters the URR from periodic reporting before the rule is removed (C03 R8)")
+	// "none whose session has ended": every way a session ends (deletion, re-association of its node, SEID-0
+	// report response) closes the session, and closing removes each of its URRs through Remove URR
+	// (shared with C01 R5/R6)
+	if calls, _ := driverCalls(c); calls != nil {
+		sets := idSets(c, calls)
+		renameRule(c, "R5", "R4", func() { c01Close(c, sets) })
+		c01EndPaths(c, "R4", false)
+	}
 }
 
 func c15Batching(c *core.Ctx) {
@@ -427,27 +440,36 @@ func c15Batching(c *core.Ctx) {
 	// after the in-loop flush the accumulator restarts empty AND the counter restarts at 0
 	resetAcc, resetCnt := false, false
 	if acc != nil {
+		// every way back into the loop from behind the flush (also from its error handling) restarts empty
+		nAfter, nEmpty := 0, 0
 		for i, e := range acc.Edges {
 			pred := acc.Block().Preds[i]
 			if inLoop.Block().Dominates(pred) {
+				nAfter++
 				// x[:0], nil or make(.., 0), possibly merged after the error check
 				if isEmpty(e) {
-					resetAcc = true
+					nEmpty++
 				}
 			}
 		}
+		resetAcc = nAfter > 0 && nAfter == nEmpty
 		// counter phi in the same header
 		for _, in := range acc.Block().Instrs {
 			ph, ok := in.(*ssa.Phi)
 			if !ok || ph == acc || !isIntType(ph.Type()) {
 				continue
 			}
+			nA, nZ := 0, 0
 			for i, e := range ph.Edges {
 				if inLoop.Block().Dominates(ph.Block().Preds[i]) {
+					nA++
 					if k, ok := core.ConstInt(e); ok && k == 0 {
-						resetCnt = true
+						nZ++
 					}
 				}
+			}
+			if nA > 0 && nA == nZ {
+				resetCnt = true
 			}
 		}
 	}
@@ -525,7 +547,7 @@ func c15Batching(c *core.Ctx) {
 		}
 		c.Floor("R3", nM, 2, "merge points of the batch counter / accumulator")
 	}
-	c.Check("R3", "flush-resets-accumulator", inLoop.Pos(), resetAcc, "after a full batch was sent the accumulator restarts empty (otherwise every later request repeats the earlier URRs)")
+	c.Check("R3", "flush-resets-accumulator", inLoop.Pos(), resetAcc, "on every path back into the loop after a batch request (also a failed one) the accumulator restarts empty (otherwise later requests repeat the earlier URRs and exceed the per-message limit)")
 	c.Check("R3", "flush-resets-counter", inLoop.Pos(), resetCnt, "after a full batch was sent the batch counter restarts at 0")
 	// final flush iff non-empty, with the accumulator as left by the loop
 	nonEmpty := false
